@@ -151,6 +151,9 @@ QUOTE_DOCS = [
     ('sentence_ends', 'She finally called the whole project "done". Then everybody went home happy and slept. He asked whether it was \'really over\'! '
                       'Nobody in the room could say "maybe"? The answer came later that week, "it is finished." Everyone was glad to hear '
                       'that it \'was so.\' And then the report said (in a "footnote"). Last sentence of the paragraph here.\n'),
+    # tags whose body contains their own delimiter character stay protected
+    ('tags_own_delims', 'Row {% if loop.index % 2 == 0 and kind == "odd" %} is "odd" and {# issue #12 isn\'t "x" #} and {{ {"a": 1}["a"] or "none" }} don\'t change.\n\n'
+                        '{% set pct = "50%" %}\n"Quoted" line {%- if a % b -%} it\'s {%- endif -%} here.\n'),
     ('sentence_ends_list', '- The first item says it is "done". And then a second sentence follows here.\n- Another item asks \'why not\'? Because the answer is long enough.\n\n'
                            '> Quoted text ends with "this". Then another sentence inside the quote.\n'),
 ]
